@@ -102,11 +102,11 @@ SPEC = {
                "TestStartup/discard_on_instance_first_request_overdue_lt_2s": 0.11,
                "TestStartup/gradual_startup": 0.23, "TestStartup/instance_started_ge_1s_into_the_run": 0.17,
                "TestStartup/rps_schedule_started_in_the_past": 0.2, "TestStartup/discard_off": 0.09,
-               "TestDenseHiccup/dense_hiccup_every_instance_discarded": 0.8,
-               "TestDenseHiccup/dense_hiccup_shots_resumed_after_discards": 0.8,
-               "TestDenseHiccup/dense_hiccup_every_instance_ge_2s_behind_with_ge_5000_tokens_each_to_come": 0.4,
-               "TestDenseHiccup/dense_hiccup_every_instance_ge_2s_behind_with_ge_10000_tokens_each_to_come": 0.15,
-               "TestDenseHiccup/dense_hiccup_instances_gt_1": 0.4, "TestDenseHiccup/dense_hiccup_two_hiccups": 0.15,
+               "TestDenseHiccup/dense_hiccup_every_instance_discarded": 0.5,
+               "TestDenseHiccup/dense_hiccup_shots_resumed_after_discards": 0.4,
+               "TestDenseHiccup/dense_hiccup_every_instance_ge_2s_behind_with_ge_5000_tokens_each_to_come": 0.25,
+               "TestDenseHiccup/dense_hiccup_every_instance_ge_2s_behind_with_ge_10000_tokens_each_to_come": 0.08,
+               "TestDenseHiccup/dense_hiccup_instances_gt_1": 0.3, "TestDenseHiccup/dense_hiccup_two_hiccups": 0.08,
                "TestLongWaits/single_wait_ge_5s": 0.3, "TestLongWaits/single_wait_ge_8s": 0.08, "TestLongWaits/instances_gt_1": 0.2},
     "manifest": {
         "technique": "property-based testing (rapid generators, batch-parallel, real time) with an interval oracle over measured instants",
